@@ -33,6 +33,7 @@ Picks ==
     [] Family = "acts"    -> ActsPicks(N, MaxChain > 0, Slice, Slices)
     [] Family = "cache"   -> CachePicks(N, MaxChain > 0, Slice, Slices)
     [] Family = "dirs"    -> DirPicks(MaxChain > 0, Slice, Slices)
+    [] Family = "pair"    -> PairPicks(N, Slice, Slices)
 ScenOf(pk) ==
   CASE Family = "flow"    -> FlowScen(pk)
     [] Family = "select"  -> SelectScen(pk)
@@ -41,6 +42,7 @@ ScenOf(pk) ==
     [] Family = "acts"    -> ActsScen(pk)
     [] Family = "cache"   -> CacheScen(pk)
     [] Family = "dirs"    -> DirScen(pk)
+    [] Family = "pair"    -> PairScen(pk)
 
 HasRx(sc) ==
   \E ri \in 1..Len(sc.rules) : \E li \in 1..Len(sc.rules[ri].links) :
@@ -51,7 +53,7 @@ HasRx(sc) ==
 Init ==
   /\ pick \in Picks
   /\ scen = ScenOf(pick)
-  /\ rxMode \in (IF HasRx(scen) THEN {RxMode(m) : m \in RxModes} ELSE {RxMode("orig")})
+  /\ rxMode \in (IF HasRx(scen) THEN {[args |-> ma, other |-> mo] : ma \in RxModes, mo \in {"orig", "fold"}} ELSE {RxMode("orig")})
   /\ st = [InitState(scen.engine) EXCEPT !.cacheOn = CacheOn, !.cacheKeyDesign = CacheDesign]
   /\ p = 1
   /\ i = 1
